@@ -748,8 +748,13 @@ def _check_algebra(check, an: Analysis, classes):
     check.instance('B', '~AsyncComparison', ok, where_fn(an.method(COMPARISON, '__invert__')),
                    'same operands, complemented operator')
     init = an.method(COMPARISON, '__init__')
-    tests = [rules.thunk_body(an, init, n.value) for n in ast.walk(init.node)
-             if isinstance(n, ast.Assign) and ast.unparse(n.targets[0]) == 'self._test']
+    made = [n.value for n in ast.walk(init.node)
+            if isinstance(n, ast.Assign) and ast.unparse(n.targets[0]) == 'self._test']
+    while any(isinstance(v, ast.IfExp) for v in made):
+        # either branch may become the test
+        made = [b for v in made for b in ((v.body, v.orelse) if isinstance(v, ast.IfExp)
+                                          else (v,))]
+    tests = [rules.thunk_body(an, init, value) for value in made]
     forms = sorted('?' if body is None else ast.unparse(body) for body in tests)
     check.instance('B', 'AsyncComparison._test', forms == [
         'condition(left.value, right)', 'condition(left.value, right.value)'],
